@@ -853,6 +853,7 @@ class Rewriter:
                      r'{ let mut sp__ = self.vec.splice(hs, \1, str_bytes_iter(hs, \2)); sp__.drop(hs, ds, &mut self.vec); }', b)
         b = self.sub('R25:last-char', r'\bself\.chars\(\)\.rev\(\)\.next\(\)', 'self.last_char(hs)', b)
         b = self.sub('R25:slice-chars', r'\bself\[(\w+)\.\.(\w+)\]\.chars\(\)', r'self.slice_chars(hs, \1, \2)', b)
+        b = self.sub('R25:empty-chars', r'""\.chars\(\)', 'empty_chars()', b)      # the chars of the empty literal: nothing to decode
         # `s[a..]` is `s[a..s.len()]`, `s[..b]` is `s[0..b]` (core's RangeFrom / RangeTo indexing of str)
         b = self.sub('R25:slice-chars', r'\bself\[(\w+)\.\.\]\.chars\(\)', r'self.slice_chars(hs, \1, self.len())', b)
         b = self.sub('R25:slice-chars', r'\bself\[\.\.(\w+)\]\.chars\(\)', r'self.slice_chars(hs, 0, \1)', b)
